@@ -82,6 +82,10 @@ def mk_lines(kind: str, text: str, n: int) -> Tuple[Any, bool]:
         "junk_scalar": b"42",
         "junk_string": json.dumps(text).encode(),
         "junk_null": b"null",
+        # JSON *strings* whose text is itself the text of a message (a double-encoded message): a string scalar, not a message
+        "junk_string_of_response": json.dumps(json.dumps({"jsonrpc": "2.0", "id": 99, "result": {"t": text}})).encode(),
+        "junk_string_of_note": json.dumps(json.dumps({"jsonrpc": "2.0", "method": "notifications/message", "params": {"t": text}})).encode(),
+        "junk_string_of_batch": json.dumps(json.dumps([{"jsonrpc": "2.0", "id": 98, "result": {}}])).encode(),
         "junk_obj": b'{"foo": 1}',
         "junk_noresult": b'{"jsonrpc":"2.0","id":5}',
         "junk_nullid_result": b'{"jsonrpc":"2.0","id":null,"result":{}}',
@@ -115,7 +119,7 @@ JUNK_KINDS = ["junk_text", "junk_brace", "junk_scalar", "junk_string", "junk_nul
               "junk_both", "junk_badutf8", "junk_badutf8_2", "junk_empty", "junk_spaces", "lenient_v1", "junk_trunc_utf8",
               "junk_nullid_result", "junk_bool_id", "junk_float_id", "ws_nel_prefixed", "ws_ff_wrapped",
               "junk_deep_brackets", "junk_huge_int", "junk_nested_batch", "junk_nan", "junk_err_badtypes", "junk_err_listcode",
-              "junk_method_int"]
+              "junk_method_int", "junk_string_of_response", "junk_string_of_note", "junk_string_of_batch"]
 
 
 def build_stream(spec: List[Tuple[str, str, str, bool]]) -> bytes:
